@@ -47,7 +47,9 @@ def case_strategy():
                                 hosts=("func", "func", "attr", "mc"), catchall=True,
                                 # keyword-only names, sometimes those of the conditions themselves (the generated
                                 # dispatcher must not confuse a parameter with an object it injects)
-                                kwnames=draw(st.sampled_from([("k0", "k1")] * 3 + [("p_pos", "p_even"), ("p_big", "INJECT")]))))
+                                kwnames=draw(st.sampled_from([("k0", "k1")] * 3 + [("p_pos", "p_even"), ("p_big", "INJECT"),
+                                                                      ("MATCH0", "SUMMATION"), ("HANDLER0", "FALLTHROUGH"),
+                                                                      ("ARG0", "HANDLER1")]))))
         calls = draw(G.calls_for(ms["methods"], corpus, ms["kwpool"], fitting=fit, n_calls=(2, 8)))
         for c in calls:
             c["script"] = []
